@@ -179,7 +179,7 @@ theorem entOK_congr (f f' : Obj → Chk → Bool) (kvs : ObjL) (e : Bytes × Key
     entOK f kvs e = entOK f' kvs e := by
   unfold entOK
   cases hg : kvs.get e.1 with
-  | none => rfl
+  | none => cases e.2.1 <;> rfl
   | some x => cases e.2.1 <;> simp [h x hg]
 
 theorem pairsOK_congr (f f' : Obj → Chk → Bool) :
@@ -273,4 +273,363 @@ theorem confStep_congr (g : Graph) (ctx : Ctx) (O : List Obj) (C : List Chk)
       (fun y hy e he => h y (hOsub _ (hOval x hx) y hy) e (hCsub r hrC e he))
       (fun e he => h x hx e (hCsub r hrC e he))]
 
+/-! ### the universe of a case is closed -/
+
+theorem glookup_mem : ∀ (g : Graph) (id : Nat × Nat) (t : Obj), g.lookup id = some t → ∃ k, (k, t) ∈ g
+  | [], id, t, h => by simp [Graph.lookup] at h
+  | (k, v) :: g, id, t, h => by
+    simp only [Graph.lookup] at h
+    split at h
+    · cases h; exact ⟨k, by simp⟩
+    · obtain ⟨k', hk'⟩ := glookup_mem g id t h
+      exact ⟨k', by simp [hk']⟩
+
+theorem clookup_mem : ∀ (ctx : Ctx) (n : String) (r : Chk), Ctx.lookup ctx n = some r → ∃ k, (k, r) ∈ ctx
+  | [], n, r, h => by simp [Ctx.lookup] at h
+  | (k, v) :: ctx, n, r, h => by
+    simp only [Ctx.lookup] at h
+    cases hl : Ctx.lookup ctx n with
+    | some r' =>
+      rw [hl] at h
+      cases h
+      obtain ⟨k', hk'⟩ := clookup_mem ctx n r hl
+      exact ⟨k', by simp [hk']⟩
+    | none =>
+      rw [hl] at h
+      simp only at h
+      split at h
+      · cases h; exact ⟨k, by simp⟩
+      · cases h
+
+theorem deref_cases (g : Graph) : ∀ (n : Nat) (x : Obj),
+    deref g n x = .null ∨ deref g n x = x ∨ ∃ k, (k, deref g n x) ∈ g := by
+  intro n
+  induction n with
+  | zero => intro x; exact Or.inl rfl
+  | succ n ih =>
+    intro x
+    cases x with
+    | ref a b =>
+      simp only [deref]
+      cases hl : g.lookup (a, b) with
+      | none => exact Or.inl rfl
+      | some t =>
+        simp only
+        rcases ih t with h | h | h
+        · exact Or.inl h
+        · obtain ⟨k, hk⟩ := glookup_mem g (a, b) t hl
+          exact Or.inr (Or.inr ⟨k, by rw [h]; exact hk⟩)
+        · exact Or.inr (Or.inr h)
+    | _ => exact Or.inr (Or.inl rfl)
+
+theorem mem_allObjs (g : Graph) (o x : Obj) :
+    x ∈ allObjs g o ↔ x = .null ∨ x ∈ objSubs o ∨ ∃ d ∈ g, x ∈ objSubs d.2 := by
+  simp only [allObjs, List.mem_eraseDups, List.cons_append, List.mem_cons, List.mem_append,
+    List.mem_flatMap]
+
+theorem mem_allChks (ctx : Ctx) (c d : Chk) :
+    d ∈ allChks ctx c ↔ d ∈ chkSubs c ∨ ∃ e ∈ ctx, d ∈ chkSubs e.2 := by
+  simp only [allChks, List.mem_eraseDups, List.mem_append, List.mem_flatMap]
+
+theorem allObjs_sub (g : Graph) (o : Obj) : ∀ x ∈ allObjs g o, ∀ y ∈ objSubs x, y ∈ allObjs g o := by
+  intro x hx y hy
+  rw [mem_allObjs] at hx ⊢
+  rcases hx with rfl | hx | ⟨d, hd, hx⟩
+  · simp only [objSubs, List.mem_singleton] at hy; exact Or.inl hy
+  · exact Or.inr (Or.inl (objSubs_trans o x y hx hy))
+  · exact Or.inr (Or.inr ⟨d, hd, objSubs_trans d.2 x y hx hy⟩)
+
+theorem allObjs_val (g : Graph) (o : Obj) : ∀ x ∈ allObjs g o, value g x ∈ allObjs g o := by
+  intro x hx
+  unfold value
+  rcases deref_cases g (g.length + 1) x with h | h | ⟨k, h⟩
+  · rw [h, mem_allObjs]; exact Or.inl rfl
+  · rw [h]; exact hx
+  · rw [mem_allObjs]; exact Or.inr (Or.inr ⟨_, h, objSubs_self _⟩)
+
+theorem allChks_sub (ctx : Ctx) (c : Chk) : ∀ d ∈ allChks ctx c, ∀ e ∈ chkSubs d, e ∈ allChks ctx c := by
+  intro d hd e he
+  rw [mem_allChks] at hd ⊢
+  rcases hd with hd | ⟨b, hb, hd⟩
+  · exact Or.inl (chkSubs_trans c d e hd he)
+  · exact Or.inr ⟨b, hb, chkSubs_trans b.2 d e hd he⟩
+
+theorem allChks_res (ctx : Ctx) (c : Chk) :
+    ∀ d ∈ allChks ctx c, ∀ r, resolve ctx d = some r → r ∈ allChks ctx c := by
+  intro d hd r hr
+  cases d with
+  | named n =>
+    simp only [resolve] at hr
+    obtain ⟨k, hk⟩ := clookup_mem ctx n r hr
+    rw [mem_allChks]
+    exact Or.inr ⟨_, hk, chkSubs_self _⟩
+  | _ => simp only [resolve, Option.some.injEq] at hr; subst hr; exact hd
+
+theorem mem_pairUniverse (g : Graph) (ctx : Ctx) (o : Obj) (c : Chk) (x : Obj) (d : Chk) :
+    (x, d) ∈ pairUniverse g ctx o c ↔ x ∈ allObjs g o ∧ d ∈ allChks ctx c := by
+  simp only [pairUniverse, List.mem_flatMap, List.mem_map, Prod.mk.injEq]
+  constructor
+  · rintro ⟨x', hx', d', hd', rfl, rfl⟩; exact ⟨hx', hd'⟩
+  · rintro ⟨hx, hd⟩; exact ⟨x, hx, d, hd, rfl, rfl⟩
+
+theorem root_mem (g : Graph) (ctx : Ctx) (o : Obj) (c : Chk) : (o, c) ∈ pairUniverse g ctx o c := by
+  rw [mem_pairUniverse, mem_allObjs, mem_allChks]
+  exact ⟨Or.inr (Or.inl (objSubs_self o)), Or.inl (chkSubs_self c)⟩
+
+/-- the closure lemma: on the universe of a case, `confStep g ctx f` depends only on `f` restricted
+    to the universe -/
+theorem confStep_congr_univ (g : Graph) (ctx : Ctx) (o : Obj) (c : Chk) (f f' : Obj → Chk → Bool)
+    (h : ∀ p ∈ pairUniverse g ctx o c, f p.1 p.2 = f' p.1 p.2) :
+    ∀ p ∈ pairUniverse g ctx o c, confStep g ctx f p.1 p.2 = confStep g ctx f' p.1 p.2 := by
+  rintro ⟨x, d⟩ hp
+  rw [mem_pairUniverse] at hp
+  exact confStep_congr g ctx (allObjs g o) (allChks ctx c) (allObjs_sub g o) (allObjs_val g o)
+    (allChks_sub ctx c) (allChks_res ctx c) f f'
+    (fun x hx d hd => h (x, d) ((mem_pairUniverse g ctx o c x d).2 ⟨hx, hd⟩)) x hp.1 d hp.2
+
+/-! ### counting: a decreasing chain of Boolean columns on a finite list stabilises -/
+
+theorem countP_eq_of_imp {α : Type} (P Q : α → Bool) : ∀ (l : List α),
+    (∀ p ∈ l, P p = true → Q p = true) → l.countP P = l.countP Q → ∀ p ∈ l, P p = Q p := by
+  intro l
+  induction l with
+  | nil => intro _ _ p hp; cases hp
+  | cons a t ih =>
+    intro himp hcnt p hp
+    have hle : t.countP P ≤ t.countP Q :=
+      List.countP_mono_left (fun x hx => himp x (by simp [hx]))
+    have ha := himp a (by simp)
+    simp only [List.countP_cons] at hcnt
+    have hpa : P a = Q a := by
+      cases hP : P a <;> cases hQ : Q a <;> simp_all <;> omega
+    have ht : t.countP P = t.countP Q := by
+      rw [hpa] at hcnt; omega
+    rcases List.mem_cons.1 hp with rfl | hp'
+    · exact hpa
+    · exact ih (fun x hx => himp x (by simp [hx])) ht p hp'
+
+section chain
+variable {α : Type} (U : List α) (F : Nat → α → Bool)
+
+/-- levels `n` and `n+1` agree on `U` -/
+def StableAt (n : Nat) : Prop := ∀ p ∈ U, F (n + 1) p = F n p
+
+theorem stable_from (prop : ∀ n, StableAt U F n → StableAt U F (n + 1)) (m : Nat)
+    (h : StableAt U F m) : ∀ k, StableAt U F (m + k) ∧ ∀ p ∈ U, F (m + k) p = F m p := by
+  intro k
+  induction k with
+  | zero => exact ⟨h, fun _ _ => rfl⟩
+  | succ k ih =>
+    refine ⟨prop _ ih.1, fun p hp => ?_⟩
+    have := ih.1 p hp
+    rw [← ih.2 p hp, ← this]
+    rfl
+
+theorem chain_inv (anti : ∀ n, ∀ p ∈ U, F (n + 1) p = true → F n p = true)
+    (prop : ∀ n, StableAt U F n → StableAt U F (n + 1)) :
+    ∀ n, StableAt U F n ∨ U.countP (F n) + n ≤ U.length := by
+  intro n
+  induction n with
+  | zero => exact Or.inr (by simpa using List.countP_le_length)
+  | succ n ih =>
+    rcases ih with h | h
+    · exact Or.inl (prop n h)
+    · by_cases hs : StableAt U F n
+      · exact Or.inl (prop n hs)
+      · right
+        have hle : U.countP (F (n + 1)) ≤ U.countP (F n) := List.countP_mono_left (anti n)
+        have hne : U.countP (F (n + 1)) ≠ U.countP (F n) :=
+          fun he => hs (countP_eq_of_imp _ _ U (anti n) he)
+        omega
+
+theorem chain_stab (anti : ∀ n, ∀ p ∈ U, F (n + 1) p = true → F n p = true)
+    (prop : ∀ n, StableAt U F n → StableAt U F (n + 1)) :
+    StableAt U F U.length ∧ ∀ n, U.length ≤ n → ∀ p ∈ U, F n p = F U.length p := by
+  have hst : StableAt U F U.length := by
+    rcases chain_inv U F anti prop U.length with h | h
+    · exact h
+    · have h0 : U.countP (F U.length) = 0 := by omega
+      rw [List.countP_eq_zero] at h0
+      intro p hp
+      have hf : F U.length p = false := by simpa using h0 p hp
+      cases hq : F (U.length + 1) p with
+      | false => exact hf.symm
+      | true => rw [anti _ p hp hq] at hf; cases hf
+  refine ⟨hst, fun n hn p hp => ?_⟩
+  have := (stable_from U F prop U.length hst (n - U.length)).2 p hp
+  rwa [show U.length + (n - U.length) = n by omega] at this
+
+end chain
+
+/-- the chain `conf` on the universe of a case satisfies the two hypotheses of `chain_stab` -/
+theorem conf_prop (g : Graph) (ctx : Ctx) (o : Obj) (c : Chk) :
+    ∀ n, StableAt (pairUniverse g ctx o c) (fun n p => conf g ctx n p.1 p.2) n →
+      StableAt (pairUniverse g ctx o c) (fun n p => conf g ctx n p.1 p.2) (n + 1) := by
+  intro n h p hp
+  exact confStep_congr_univ g ctx o c (conf g ctx (n + 1)) (conf g ctx n) h p hp
+
+theorem conf_anti (g : Graph) (ctx : Ctx) (U : List Pend) :
+    ∀ n, ∀ p ∈ U, (fun n (p : Pend) => conf g ctx n p.1 p.2) (n + 1) p = true →
+      (fun n (p : Pend) => conf g ctx n p.1 p.2) n p = true :=
+  fun n p _ h => conforms_antitone g ctx n p.1 p.2 h
+
 end Parsley.C08.Stab
+
+namespace Parsley.C08
+open Parsley Parsley.TC Parsley.TC.Spec
+
+/-- the chain of unfoldings is constant, on the universe of the case, from level |universe| on -/
+theorem conforms_stabilises (g : Graph) (ctx : Ctx) (o : Obj) (c : Chk) :
+    ∀ n, (pairUniverse g ctx o c).length ≤ n →
+      ∀ p ∈ pairUniverse g ctx o c,
+        conf g ctx n p.1 p.2 = conf g ctx (pairUniverse g ctx o c).length p.1 p.2 :=
+  (Stab.chain_stab (pairUniverse g ctx o c) (fun n p => conf g ctx n p.1 p.2)
+    (Stab.conf_anti g ctx _) (Stab.conf_prop g ctx o c)).2
+
+theorem conf_le (g : Graph) (ctx : Ctx) (o : Obj) (c : Chk) (m : Nat) :
+    ∀ k, conf g ctx (m + k) o c = true → conf g ctx m o c = true := by
+  intro k
+  induction k with
+  | zero => exact id
+  | succ k ih => exact fun h => ih (conforms_antitone g ctx (m + k) o c h)
+
+/-- conformance (the limit of the chain) is decided by the unfolding of depth |universe| -/
+theorem Conforms_iff_conf_card (g : Graph) (ctx : Ctx) (o : Obj) (c : Chk) :
+    Conforms g ctx o c ↔ conf g ctx (pairUniverse g ctx o c).length o c = true := by
+  constructor
+  · intro H; exact H _
+  · intro H n
+    by_cases hn : (pairUniverse g ctx o c).length ≤ n
+    · rw [conforms_stabilises g ctx o c n hn (o, c) (Stab.root_mem g ctx o c)]; exact H
+    · apply conf_le g ctx o c n ((pairUniverse g ctx o c).length - n)
+      rw [show n + ((pairUniverse g ctx o c).length - n) = (pairUniverse g ctx o c).length by omega]
+      exact H
+
+-- non-vacuity: a cyclic graph (object 1 0 is a dictionary whose /N entry refers to itself) against
+-- the recursive type node = dict{ N : optional node }; the universe has 6 pairs
+example : (pairUniverse [((1, 0), .dict (.cons [0x4e] (.ref 1 0) .nil))]
+      [("node", .dict Attr.dflt (.cons [0x4e] .optional (.named "node") .nil))]
+      (.ref 1 0) (.named "node")).length = 6 := by decide
+
+example : conf [((1, 0), .dict (.cons [0x4e] (.ref 1 0) .nil))]
+    [("node", .dict Attr.dflt (.cons [0x4e] .optional (.named "node") .nil))]
+    (pairUniverse [((1, 0), .dict (.cons [0x4e] (.ref 1 0) .nil))]
+      [("node", .dict Attr.dflt (.cons [0x4e] .optional (.named "node") .nil))]
+      (.ref 1 0) (.named "node")).length (.ref 1 0) (.named "node") = true := by decide
+
+example : Conforms [((1, 0), .dict (.cons [0x4e] (.ref 1 0) .nil))]
+    [("node", .dict Attr.dflt (.cons [0x4e] .optional (.named "node") .nil))]
+    (.ref 1 0) (.named "node") := by
+  rw [Conforms_iff_conf_card]; decide
+
+-- ... and a refuted one: the same graph against node = dict{ N : required node, X : required Integer }
+example : ¬ Conforms [((1, 0), .dict (.cons [0x4e] (.ref 1 0) .nil))]
+    [("node", .dict Attr.dflt (.cons [0x4e] .required (.named "node")
+        (.cons [0x58] .required (.prim Attr.dflt .integer) .nil)))]
+    (.ref 1 0) (.named "node") := by
+  rw [Conforms_iff_conf_card]; decide
+
+end Parsley.C08
+
+/-! ### the executable oracle -/
+
+namespace Parsley.C08.Stab
+open Parsley Parsley.TC Parsley.TC.Spec
+
+/-- the table whose Boolean column is `h` -/
+def tblOf (U : List Pend) (h : Pend → Bool) : Table := U.map fun p => (p, h p)
+
+theorem get_tblOf (h : Pend → Bool) : ∀ (U : List Pend) (x : Obj) (d : Chk), (x, d) ∈ U →
+    (tblOf U h).get x d = h (x, d) := by
+  intro U
+  induction U with
+  | nil => intro x d hm; cases hm
+  | cons a t ih =>
+    intro x d hm
+    by_cases ha : a = (x, d)
+    · subst ha
+      simp [tblOf, Table.get]
+    · have hm' : (x, d) ∈ t := by
+        rcases List.mem_cons.1 hm with h | h
+        · exact absurd h.symm ha
+        · exact h
+      have := ih x d hm'
+      simp only [tblOf, Table.get] at this ⊢
+      simp only [List.map_cons, List.find?_cons, ha, decide_false]
+      exact this
+
+theorem next_tblOf (g : Graph) (ctx : Ctx) (o : Obj) (c : Chk) (n : Nat) :
+    Table.next g ctx (tblOf (pairUniverse g ctx o c) (fun p => conf g ctx n p.1 p.2))
+      = tblOf (pairUniverse g ctx o c) (fun p => conf g ctx (n + 1) p.1 p.2) := by
+  simp only [Table.next]
+  conv => lhs; arg 2; rw [tblOf]
+  rw [List.map_map, tblOf]
+  apply List.map_congr_left
+  intro p hp
+  simp only [Function.comp]
+  congr 1
+  exact confStep_congr_univ g ctx o c _ (conf g ctx n)
+    (fun q hq => get_tblOf _ _ q.1 q.2 hq) p hp
+
+theorem col_tblOf (U : List Pend) (h : Pend → Bool) : (tblOf U h).map (·.2) = U.map h := by
+  simp [tblOf, List.map_map, Function.comp]
+
+theorem iter_tbl (g : Graph) (ctx : Ctx) (o : Obj) (c : Chk) :
+    ∀ k n, ∃ m, n ≤ m ∧
+      iter g ctx k (tblOf (pairUniverse g ctx o c) (fun p => conf g ctx n p.1 p.2))
+        = tblOf (pairUniverse g ctx o c) (fun p => conf g ctx m p.1 p.2) ∧
+      (StableAt (pairUniverse g ctx o c) (fun n p => conf g ctx n p.1 p.2) m ∨ m = n + k) := by
+  intro k
+  induction k with
+  | zero => intro n; exact ⟨n, Nat.le_refl _, rfl, Or.inr rfl⟩
+  | succ k ih =>
+    intro n
+    simp only [iter, next_tblOf, col_tblOf]
+    split
+    · rename_i heq
+      refine ⟨n, Nat.le_refl _, rfl, Or.inl ?_⟩
+      exact List.map_inj_left.1 heq
+    · obtain ⟨m, hm, he, hs⟩ := ih (n + 1)
+      exact ⟨m, by omega, he, by rcases hs with h | h; exact Or.inl h; exact Or.inr (by omega)⟩
+
+end Parsley.C08.Stab
+
+namespace Parsley.C08
+open Parsley Parsley.TC Parsley.TC.Spec
+
+/-- the table iteration returns the column `conf |universe|` at the root pair -/
+theorem gfp_eq_conf_card (g : Graph) (ctx : Ctx) (o : Obj) (c : Chk) :
+    gfp g ctx o c = conf g ctx (pairUniverse g ctx o c).length o c := by
+  obtain ⟨m, _, he, hs⟩ := Stab.iter_tbl g ctx o c ((pairUniverse g ctx o c).length + 1) 0
+  have h0 : (pairUniverse g ctx o c).map (fun p => (p, true))
+      = Stab.tblOf (pairUniverse g ctx o c) (fun p => conf g ctx 0 p.1 p.2) := rfl
+  simp only [gfp]
+  rw [h0, he, Stab.get_tblOf _ _ o c (Stab.root_mem g ctx o c)]
+  show conf g ctx m o c = _
+  by_cases hm : (pairUniverse g ctx o c).length ≤ m
+  · exact conforms_stabilises g ctx o c m hm (o, c) (Stab.root_mem g ctx o c)
+  · rcases hs with hs | hs
+    · have := (Stab.stable_from (pairUniverse g ctx o c) (fun n p => conf g ctx n p.1 p.2)
+        (Stab.conf_prop g ctx o c) m hs ((pairUniverse g ctx o c).length - m)).2 (o, c)
+        (Stab.root_mem g ctx o c)
+      rw [show m + ((pairUniverse g ctx o c).length - m) = (pairUniverse g ctx o c).length by omega]
+        at this
+      exact this.symm
+    · omega
+
+/-- the executable oracle decides the declarative notion -/
+theorem gfp_iff_Conforms (g : Graph) (ctx : Ctx) (o : Obj) (c : Chk) :
+    gfp g ctx o c = true ↔ Conforms g ctx o c := by
+  rw [gfp_eq_conf_card, Conforms_iff_conf_card]
+
+-- non-vacuity: the oracle on the cyclic case above, both verdicts
+example : gfp [((1, 0), .dict (.cons [0x4e] (.ref 1 0) .nil))]
+    [("node", .dict Attr.dflt (.cons [0x4e] .optional (.named "node") .nil))]
+    (.ref 1 0) (.named "node") = true := by decide
+
+example : gfp [((1, 0), .dict (.cons [0x4e] (.ref 1 0) .nil))]
+    [("node", .dict Attr.dflt (.cons [0x4e] .required (.named "node")
+        (.cons [0x58] .required (.prim Attr.dflt .integer) .nil)))]
+    (.ref 1 0) (.named "node") = false := by decide
+
+end Parsley.C08
